@@ -185,7 +185,21 @@ def search(chk, n_cases):
                         sup_ = sum(np.kron(k_, k_.conj()) for k_ in ks_)
                         cc.add_single_site_control(sup_, site_, step_, post_)
                     info["chain_control"] = "non-unital channels"
-                p = oqupy.PtTebd(oqupy.AugmentedMPS(inits), chain, [pt] + [None] * (L - 1),
+                lambdas_ = None
+                if it == 3 or rng.random() < 0.4:
+                    # a correlated (classically mixed) state of the first two sites, handed over as rank-3 tensors with
+                    # explicit lambdas: w |0,0><0,0| + (1-w) |1,1><1,1|  (forced in the case of every run)
+                    w_ = rng.choice([0.3, 0.5, 0.85])
+                    proj = lambda dd, j_: np.diag(np.eye(dd)[j_]).astype(complex).reshape(dd * dd)
+                    g0_ = np.zeros((1, dims[0] ** 2, 2), dtype=complex)
+                    g1_ = np.zeros((2, dims[1] ** 2, 1), dtype=complex)
+                    for j_ in range(2):
+                        g0_[0, :, j_] = proj(dims[0], j_)
+                        g1_[j_, :, 0] = proj(dims[1], j_)
+                    inits = [g0_, g1_] + inits[2:]
+                    lambdas_ = [np.array([w_, 1.0 - w_])] + [None] * (L - 2)
+                    info["initial_state"] = f"correlated first pair with lambdas [{w_}, {1 - w_}]"
+                p = oqupy.PtTebd(oqupy.AugmentedMPS(inits, lambdas_), chain, [pt] + [None] * (L - 1),
                                  oqupy.PtTebdParameters(dt=dt, order=rng.choice([1, 2]), epsrel=eps), dynamics_sites=list(range(L)) + subsets, chain_control=cc)
                 res = quiet(p.compute, n, progress_type="silent")
                 states = [st for site in list(range(L)) + subsets for st in res["dynamics"][site].states]
